@@ -880,10 +880,14 @@ Definition check_scan (c : option N * bool * url_table * list event
     independent values; [from_bytes] has no state. *)
 Inductive api_op :=
 | ApiParse (b : bytes)                       (* AdvDataFieldList.from_bytes(b); an Ok result is kept as list #k *)
+| ApiBuild (ks : list call)                  (* a new AdvDataFieldList holding the records of these constructor calls; kept as list #k when no constructor raises *)
+| ApiAdd (i : nat) (k : call)                (* lists[i].add(constructor call) *)
+| ApiRemove (i j : nat)                      (* lists[i].remove(lists[i][j]) *)
 | ApiSetName (i j : nat) (v : bytes)         (* lists[i][j].name = v      (the two name classes) *)
 | ApiSetCompany (i j : nat) (v : N)          (* lists[i][j].company = v   (manufacturer data) *)
 | ApiSetData (i j : nat) (v : bytes)         (* lists[i][j].data = v      (manufacturer data) *)
-| ApiSerialise (i : nat).                    (* lists[i].to_bytes() *)
+| ApiSerialise (i : nat)                     (* lists[i].to_bytes() *)
+| ApiReparse (i : nat).                      (* AdvDataFieldList.from_bytes(lists[i].to_bytes()); result not kept *)
 Inductive api_out := OutParse (o : outcome (list rec)) | OutNone | OutBytes (o : outcome bytes).
 
 Definition set_name (v : bytes) (r : rec) : rec :=
@@ -897,16 +901,37 @@ Fixpoint upd_nth {A} (n : nat) (f : A -> A) (l : list A) : list A :=
   | x :: r, S k => x :: upd_nth k f r
   end.
 
+Fixpoint remove_nth {A} (n : nat) (l : list A) : list A :=
+  match l, n with
+  | [], _ => []
+  | _ :: r, O => r
+  | x :: r, S k => x :: remove_nth k r
+  end.
+
+(** [to_bytes()] depends on nothing but the records the list holds NOW *)
 Definition api_step (urlnorm : text -> url_result) (st : list (list rec)) (op : api_op)
   : list (list rec) * api_out :=
   match op with
   | ApiParse b => let o := from_bytes urlnorm b in
                   (match o with Ok l => st ++ [l] | Raise _ => st end, OutParse o)
+  | ApiBuild ks => let o := mapM (construct urlnorm) ks in
+                   (match o with Ok l => st ++ [l] | Raise _ => st end, OutParse o)
+  | ApiAdd i k => match construct urlnorm k with
+                  | Ok r => (upd_nth i (fun l => l ++ [r]) st, OutNone)
+                  | Raise e => (st, OutParse (Raise e))
+                  end
+  | ApiRemove i j => (upd_nth i (remove_nth j) st, OutNone)
   | ApiSetName i j v => (upd_nth i (upd_nth j (set_name v)) st, OutNone)
   | ApiSetCompany i j v => (upd_nth i (upd_nth j (set_company v)) st, OutNone)
   | ApiSetData i j v => (upd_nth i (upd_nth j (set_data v)) st, OutNone)
   | ApiSerialise i => (st, OutBytes (to_bytes (nth i st [])))
+  | ApiReparse i => (st, match to_bytes (nth i st []) with
+                         | Ok b => OutParse (from_bytes urlnorm b)
+                         | Raise e => OutBytes (Raise e)
+                         end)
   end.
+Definition api_state (urlnorm : text -> url_result) (st : list (list rec)) (ops : list api_op) : list (list rec) :=
+  fold_left (fun s op => fst (api_step urlnorm s op)) ops st.
 Fixpoint api_run (urlnorm : text -> url_result) (st : list (list rec)) (ops : list api_op) : list api_out :=
   match ops with
   | [] => []
